@@ -140,7 +140,12 @@ def main(tier):
         for expr, fac, pw in (('%s*%s' % (cf, a), cv * units[a]._factor, list(units[a]._powers)),
                               ('%s/%s' % (a, cf), units[a]._factor / cv, list(units[a]._powers)),
                               ('(%s*%s)**2' % (cf, a), (cv * units[a]._factor) ** 2, [2 * q for q in units[a]._powers]),
-                              ('%s*%s/s' % (cf, a), cv * units[a]._factor / units['s']._factor, [q - r for q, r in zip(units[a]._powers, units['s']._powers)])):
+                              ('%s*%s/s' % (cf, a), cv * units[a]._factor / units['s']._factor, [q - r for q, r in zip(units[a]._powers, units['s']._powers)]),
+                              # a scalar DIVIDED BY a unit (PhysicalUnit.__rdiv__), alone, nested and raised to a power
+                              ('%s/%s' % (cf, a), cv / units[a]._factor, [-q for q in units[a]._powers]),
+                              ('2/(%s/%s)' % (cf, a), 2.0 * units[a]._factor / cv, list(units[a]._powers)),
+                              ('(%s/%s)**2' % (cf, a), (cv / units[a]._factor) ** 2, [-2 * q for q in units[a]._powers]),
+                              ('m*%s/%s' % (cf, a), units['m']._factor * cv / units[a]._factor, [r - q for q, r in zip(units[a]._powers, units['m']._powers)])):
             ev += 1
             try:
                 u = U._find_unit(expr)
